@@ -161,6 +161,8 @@ pub fn atomic_point(tag: &'static str) {
 struct Script {
     prefix: Vec<usize>,
     trace: Vec<(usize, usize)>,
+    /// while set, `choose` re-answers the recorded choices from this position on (not recorded again)
+    replay_cursor: Option<usize>,
 }
 
 thread_local! {
@@ -172,7 +174,7 @@ thread_local! {
 /// full (chosen, arity) trace.
 pub fn run_with_choices<T>(prefix: &[usize], f: impl FnOnce() -> T) -> (T, Vec<(usize, usize)>) {
     SCRIPT.with(|s| {
-        *s.borrow_mut() = Some(Script { prefix: prefix.to_vec(), trace: Vec::new() });
+        *s.borrow_mut() = Some(Script { prefix: prefix.to_vec(), trace: Vec::new(), replay_cursor: None });
     });
     let r = catch_unwind(AssertUnwindSafe(f));
     let trace = SCRIPT.with(|s| s.borrow_mut().take().map(|s| s.trace).unwrap_or_default());
@@ -180,6 +182,28 @@ pub fn run_with_choices<T>(prefix: &[usize], f: impl FnOnce() -> T) -> (T, Vec<(
         Ok(v) => (v, trace),
         Err(p) => resume_unwind(p),
     }
+}
+
+/// Number of choices recorded so far in the running script (0 outside a script).
+pub fn choice_mark() -> usize {
+    SCRIPT.with(|s| s.borrow().as_ref().map_or(0, |sc| sc.trace.len()))
+}
+
+/// Run `f` with `choose` giving the answers recorded from position `from` on once more: lets a
+/// reference implementation draw the same "random" numbers as the subject did in this step.
+pub fn with_replayed_choices<T>(from: usize, f: impl FnOnce() -> T) -> T {
+    SCRIPT.with(|s| {
+        if let Some(sc) = s.borrow_mut().as_mut() {
+            sc.replay_cursor = Some(from);
+        }
+    });
+    let r = f();
+    SCRIPT.with(|s| {
+        if let Some(sc) = s.borrow_mut().as_mut() {
+            sc.replay_cursor = None;
+        }
+    });
+    r
 }
 
 /// Depth-first successor of a choice trace: bump the last choice that has an untried
@@ -225,6 +249,12 @@ pub fn choose(n: usize, tag: &'static str) -> usize {
         let mut s = s.borrow_mut();
         match s.as_mut() {
             Some(sc) => {
+                if let Some(cur) = sc.replay_cursor {
+                    // a reference run re-drawing the subject's answers; beyond them it draws 0
+                    let c = sc.trace.get(cur).map_or(0, |x| x.0.min(n - 1));
+                    sc.replay_cursor = Some(cur + 1);
+                    return c;
+                }
                 let pos = sc.trace.len();
                 let c = if pos < sc.prefix.len() { sc.prefix[pos] } else { 0 };
                 if c >= n {
